@@ -142,95 +142,7 @@ func runC07(c *Ctx) {
 	checkBounds(c, "R07.3", bf, c07Table)
 	c.min("R07.3", 30)
 
-	// R07.4 the parameter-skipping loop of ParseAccept never runs past the separator of the next range
-	pa := p.Fn("rt/middleware/header.ParseAccept")
-	nSkip := 0
-	for _, ci := range callsIn(pa, "rt/middleware/header.skipSpace") {
-		sl, ok := ci.Common().Args[0].(*ssa.Slice)
-		if !ok || sl.High != nil {
-			continue
-		}
-		if k, okk := constInt(sl.Low); !okk || k != 1 {
-			continue
-		}
-		// the advance of the inner skip loop: the string it cuts is the loop variable it feeds (s = skipSpace(s[1:]))
-		lp, isPhi := sl.X.(*ssa.Phi)
-		feeds := false
-		if isPhi {
-			for _, e := range lp.Edges {
-				if e == ci.Value() {
-					feeds = true
-				}
-			}
-		}
-		if !feeds {
-			continue
-		}
-		nSkip++
-		notComma := factBool(func(v ssa.Value) bool {
-			h := asCall(v)
-			if h == nil || calleeName(&h.Call) != "strings.HasPrefix" || h.Call.Args[0] != sl.X {
-				return false
-			}
-			k, _ := constString(h.Call.Args[1])
-			return k == ","
-		}, false)
-		c.obI("R07.4", ci, "parameter-skip-stops-at-comma", guardedBy(ci, nil, notComma) && guardedBy(ci, ci, notComma), "while skipping a range's parameters in search of q=, ParseAccept advances only when the rest does not start with the ',' that separates the next range (so the following ranges of the header line are parsed from the right place)", "the skip loop can run over a ',' and swallow the following ranges")
-	}
-	c.obRF("R07.4", pa, "parameter-skip-loop", nSkip >= 1, "ParseAccept skips media-type parameters before q=", fmt.Sprintf("%d skip sites", nSkip))
-
-	// the quality recorded for a range is the number its q-value denotes: exactly what expectQuality returned (or the
-	// default 1) — not rounded, clamped or scaled afterwards (two q-values that differ stay different, in the same order)
-	for _, fn := range []*ssa.Function{pa, p.FnOpt("rt/middleware/header.ParseAccept2")} {
-		if fn == nil {
-			continue
-		}
-		nQ := 0
-		for _, st := range fieldStores(fn, acceptSpecT, "Q") {
-			nQ++
-			ok, bad := allOrigins(st.Val, oCall(0, "rt/middleware/header.expectQuality"), func(o Origin) bool {
-				k, isK := o.V.(*ssa.Const)
-				return isK && k.Value != nil && constant.Compare(k.Value, token.EQL, constant.MakeFloat64(1))
-			})
-			c.obI("R07.4", st, "q-stored-as-parsed", ok, "the quality stored for a range is expectQuality's result (or the default 1.0), unaltered", "origin "+describeOrigin(bad))
-		}
-		c.obRF("R07.4", fn, "stores-q", nQ >= 1, "the parser records a quality per range", "")
-	}
-	// after a range has been recorded, the test for the ',' that introduces the next range looks at the rest with its
-	// leading white space skipped ("a;q=0.5 , b": white space may follow a q-value)
-	{
-		var app ssa.Instruction
-		for _, in := range instrs(pa) {
-			if call, ok := in.(*ssa.Call); ok && calleeName(&call.Call) == "builtin append" && typeStr(call.Type()) == "[]"+acceptSpecT {
-				app = call
-			}
-		}
-		nComma := 0
-		if app != nil {
-			for _, ci := range callsIn(pa, "strings.HasPrefix", "strings.CutPrefix") {
-				if k, _ := constString(ci.Common().Args[1]); k != "," || !dominates(app, ci) {
-					continue
-				}
-				nComma++
-				ok, bad := allOrigins(ci.Common().Args[0], oCall(-1, "rt/middleware/header.skipSpace", "strings.TrimLeft", "strings.TrimSpace", "strings.TrimLeftFunc"))
-				c.obI("R07.4", ci, "next-range-comma-after-skipped-space", ok, "the rest of the line is tested for the ',' of the next range only after its leading white space was skipped (white space after a q-value or a parameter does not hide the following ranges)", "the tested rest can be "+describeOrigin(bad)+" (not passed through skipSpace)")
-			}
-		}
-		c.obRF("R07.4", pa, "next-range-comma-test", nComma >= 1, "ParseAccept continues with the next range after a ','", "")
-	}
-	// every line of the header is parsed: the loop over the header's values is left only when they are exhausted
-	{
-		var lines []sliceLoop
-		for _, l := range sliceLoops(pa, nil) {
-			if lk, ok := l.X.(*ssa.Lookup); ok && lk.X == ssa.Value(pa.Params[0]) {
-				lines = append(lines, l)
-			}
-		}
-		c.obRF("R07.4", pa, "iterates-header-lines", len(lines) == 1, "ParseAccept iterates over the values of the header", fmt.Sprintf("%d loops", len(lines)))
-		for _, l := range lines {
-			c.obI("R07.4", l.Elem, "all-header-lines-parsed", l.noEarlyExit(), "an empty or malformed element ends the parse of its own header line only: the loop over the header's lines is never left before the last line (a later line can carry the preferred range)", "a path leaves the loop over the header lines early (break/return from the body)")
-		}
-	}
+	ruleParseAcceptStructure(c, "R07.4")
 
 	// R07.4 accumulators
 	eq := p.Fn("rt/middleware/header.expectQuality")
@@ -691,4 +603,121 @@ func offersByRanges(c *Ctx, rule string, f *ssa.Function, outer, inner sliceLoop
 		}
 	}
 	c.obI(rule, inner.Elem, "every-range-examined-per-offer", !skips, "for each offer every range is examined: the loop over the ranges is never left early (a later range of higher quality or specificity still counts)", "a path leaves the loop over the ranges before they are exhausted")
+}
+
+// ruleParseAcceptStructure: the structural rules of header.ParseAccept — the parameter skip never runs over the ','
+// of the next range, q and the range are stored as parsed, the ',' test follows skipped white space, every header line
+// is parsed. Shared by C07 and C08 (whose negotiated type is chosen among the ranges ParseAccept yields).
+func ruleParseAcceptStructure(c *Ctx, rule string) {
+	p := c.P
+	// R07.4 the parameter-skipping loop of ParseAccept never runs past the separator of the next range
+	pa := p.Fn("rt/middleware/header.ParseAccept")
+	nSkip := 0
+	for _, ci := range callsIn(pa, "rt/middleware/header.skipSpace") {
+		sl, ok := ci.Common().Args[0].(*ssa.Slice)
+		if !ok || sl.High != nil {
+			continue
+		}
+		if k, okk := constInt(sl.Low); !okk || k != 1 {
+			continue
+		}
+		// the advance of the inner skip loop: the string it cuts is the loop variable it feeds (s = skipSpace(s[1:]))
+		lp, isPhi := sl.X.(*ssa.Phi)
+		feeds := false
+		if isPhi {
+			for _, e := range lp.Edges {
+				if e == ci.Value() {
+					feeds = true
+				}
+			}
+		}
+		if !feeds {
+			continue
+		}
+		nSkip++
+		notComma := factBool(func(v ssa.Value) bool {
+			h := asCall(v)
+			if h == nil || calleeName(&h.Call) != "strings.HasPrefix" || h.Call.Args[0] != sl.X {
+				return false
+			}
+			k, _ := constString(h.Call.Args[1])
+			return k == ","
+		}, false)
+		c.obI(rule, ci, "parameter-skip-stops-at-comma", guardedBy(ci, nil, notComma) && guardedBy(ci, ci, notComma), "while skipping a range's parameters in search of q=, ParseAccept advances only when the rest does not start with the ',' that separates the next range (so the following ranges of the header line are parsed from the right place)", "the skip loop can run over a ',' and swallow the following ranges")
+	}
+	c.obRF(rule, pa, "parameter-skip-loop", nSkip >= 1, "ParseAccept skips media-type parameters before q=", fmt.Sprintf("%d skip sites", nSkip))
+	// the scanner of ParseAccept moves forward only over octets it has just looked at: every re-slicing of the rest of the
+	// line cuts a CONSTANT number of octets (the ';', the ',', "q="); a computed jump — to the next ';' or ',' — passes
+	// over text unseen, e.g. the ',' that ends the range
+	for _, in := range ownInstrs(pa) {
+		sl, isSl := in.(*ssa.Slice)
+		if !isSl || sl.Low == nil || typeStr(sl.X.Type()) != "string" {
+			continue
+		}
+		_, isK := constInt(sl.Low)
+		c.obI(rule, sl, "scanner-advances-by-matched-octets", isK && sl.High == nil, "ParseAccept re-slices the rest of the line only by a constant number of octets it has just matched", "the rest of the line is cut at a computed offset ("+describe(sl.Low)+"): whatever lies before it is skipped unseen")
+	}
+
+	// the quality recorded for a range is the number its q-value denotes: exactly what expectQuality returned (or the
+	// default 1) — not rounded, clamped or scaled afterwards (two q-values that differ stay different, in the same order)
+	for _, fn := range []*ssa.Function{pa, p.FnOpt("rt/middleware/header.ParseAccept2")} {
+		if fn == nil {
+			continue
+		}
+		nQ := 0
+		for _, st := range fieldStores(fn, acceptSpecT, "Q") {
+			nQ++
+			ok, bad := allOrigins(st.Val, oCall(0, "rt/middleware/header.expectQuality"), func(o Origin) bool {
+				k, isK := o.V.(*ssa.Const)
+				return isK && k.Value != nil && constant.Compare(k.Value, token.EQL, constant.MakeFloat64(1))
+			})
+			c.obI(rule, st, "q-stored-as-parsed", ok, "the quality stored for a range is expectQuality's result (or the default 1.0), unaltered", "origin "+describeOrigin(bad))
+		}
+		c.obRF(rule, fn, "stores-q", nQ >= 1, "the parser records a quality per range", "")
+		// … and the range itself is recorded as spelled (the negotiators compare it byte for byte with the declared offers:
+		// a range rewritten by the parser — lower-cased, trimmed — no longer equals an offer spelled with capitals)
+		for _, st := range fieldStores(fn, acceptSpecT, "Value") {
+			if fn != pa {
+				continue // (ParseAccept2 — not used by the negotiators — normalises through parseValueAndParams)
+			}
+			ok, bad := allOrigins(st.Val, oCall(0, "rt/middleware/header.expectTokenSlash", "rt/middleware/header.expectToken", "rt/middleware/header.expectTokenOrQuoted"), oConstString(""))
+			c.obI(rule, st, "range-stored-as-parsed", ok, "the media range (or coding) stored for a range is the token the scanner returned, unaltered", "origin "+describeOrigin(bad))
+		}
+	}
+	// after a range has been recorded, the test for the ',' that introduces the next range looks at the rest with its
+	// leading white space skipped ("a;q=0.5 , b": white space may follow a q-value)
+	{
+		var app ssa.Instruction
+		for _, in := range instrs(pa) {
+			if call, ok := in.(*ssa.Call); ok && calleeName(&call.Call) == "builtin append" && typeStr(call.Type()) == "[]"+acceptSpecT {
+				app = call
+			}
+		}
+		nComma := 0
+		if app != nil {
+			for _, ci := range callsIn(pa, "strings.HasPrefix", "strings.CutPrefix") {
+				if k, _ := constString(ci.Common().Args[1]); k != "," || !dominates(app, ci) {
+					continue
+				}
+				nComma++
+				ok, bad := allOrigins(ci.Common().Args[0], oCall(-1, "rt/middleware/header.skipSpace", "strings.TrimLeft", "strings.TrimSpace", "strings.TrimLeftFunc"))
+				c.obI(rule, ci, "next-range-comma-after-skipped-space", ok, "the rest of the line is tested for the ',' of the next range only after its leading white space was skipped (white space after a q-value or a parameter does not hide the following ranges)", "the tested rest can be "+describeOrigin(bad)+" (not passed through skipSpace)")
+			}
+		}
+		c.obRF(rule, pa, "next-range-comma-test", nComma >= 1, "ParseAccept continues with the next range after a ','", "")
+	}
+	// every line of the header is parsed: the loop over the header's values is left only when they are exhausted
+	{
+		var lines []sliceLoop
+		for _, l := range sliceLoops(pa, nil) {
+			if lk, ok := l.X.(*ssa.Lookup); ok && lk.X == ssa.Value(pa.Params[0]) {
+				lines = append(lines, l)
+			}
+		}
+		c.obRF(rule, pa, "iterates-header-lines", len(lines) == 1, "ParseAccept iterates over the values of the header", fmt.Sprintf("%d loops", len(lines)))
+		for _, l := range lines {
+			c.obI(rule, l.Elem, "all-header-lines-parsed", l.noEarlyExit(), "an empty or malformed element ends the parse of its own header line only: the loop over the header's lines is never left before the last line (a later line can carry the preferred range)", "a path leaves the loop over the header lines early (break/return from the body)")
+		}
+	}
+
 }
